@@ -27,13 +27,14 @@ func init() {
 		ID:   "C20",
 		Race: true,
 		Rule: "Twin runs: the same layer history (initial value + 1-10 updates, blocking and non-blocking) is played (i) through sourcewrap.NewTransformingSource(fake inner source, manglers...) where the fake produces values OF THE TRANSLATED TYPE IT WAS ASKED FOR (filled by name with forward-converted typed values), and (ii) into a reference Dials whose fake source produces the pointerified original type directly; the two views must be equal after the initial stack and after every update. " +
-			"Mangler lists: none, set-slice, duration substitution, tag reformat, the ez file chain, the flag chain (flatten) and the env chain (flatten + string cast). Inner sources: static, watching, failing at Value (Config must fail with an error wrapping it), failing at Watch, reporting errors (must reach OnWatchedError), and updates whose reverse translation fails (alias and primary both set: the error must come back from the inner source's report call and the view must stay). Transforming decoders go through the same twin comparison on JSON documents. " +
-			"Blank: every SetSource/Done sequence up to length 4 over {static inner, watching inner, inner failing at Value, Done} plus seeded longer ones, against a 15-line model (delegate to the latest non-watching inner; refuse to replace a watching one; a failing SetSource keeps the previous inner; Done reaches Dials iff no watching inner is installed - observed through monitor exit; an installed watching inner's later updates are applied for as long as the Config context lives, whatever context SetSource was called with). " +
+			"Mangler lists: none, set-slice, duration substitution, tag reformat, the ez file chain, the flag chain (flatten), the env chain (flatten + string cast) and three anonymous-flatten chains (alone, the YAML decoder's, ez+YAML) over a config type with an embedded struct that has nested structs (by pointer and by value; values leave them set and entirely unset). Inner sources: static, watching, failing at Value (Config must fail with an error wrapping it), failing at Watch, reporting errors (must reach OnWatchedError), and updates whose reverse translation fails (alias and primary both set: the error must come back from the inner source's report call and the view must stay). Transforming decoders go through the same twin comparison on JSON documents. " +
+			"Blank: every SetSource/Done sequence up to length 4 over {static inner, watching inner, inner failing at Value, Done} plus seeded longer ones, against a 15-line model (delegate to the latest non-watching inner; refuse to replace a watching one; a failing SetSource keeps the previous inner; Done reaches Dials iff no watching inner is installed - observed through monitor exit; an installed watching inner's later updates are applied for as long as the Config context lives, whatever context SetSource was called with). The sequences up to length 3 are run once more with every inner source behind NewTransformingSource(random mangler list), and the seeded longer ones wrap each inner source with probability 1/2: the model is unchanged (a wrapped static source is static, a wrapped watcher a watcher, a wrapped failure a failure). " +
 			"distinct_nontrivial = distinct (mangler list, inner kind, update pattern) and (Blank sequence) signatures.",
 		Assumptions: []string{"a Blank placed inside a transforming source is not generated (Blank's initial zero value is a pointer, which the transforming source does not accept: outside the statement)"},
 		MinDistinct: map[string]int{"quick": 800, "thorough": 40000},
 		MinCounters: map[string]map[string]int64{
-			"quick":    {"twin_views_compared": 3000, "wrapped_updates_applied": 1500, "blank_sequences_run": 340, "inner_errors_propagated": 150, "reverse_failures_returned_to_inner": 60},
+			"quick":    {"twin_views_compared": 3000, "wrapped_updates_applied": 1500, "blank_sequences_run": 340, "inner_errors_propagated": 150, "reverse_failures_returned_to_inner": 60,
+				"anon_flatten_values_with_hoisted_struct_unset": 200, "anon_flatten_values_with_hoisted_struct_set": 800, "blank_sequences_with_wrapped_inner_run": 200},
 			"thorough": {"twin_views_compared": 800000},
 		},
 		Plan: func(tier string) fw.Plan {
@@ -51,7 +52,21 @@ type c20Nested struct {
 	D time.Duration `dials:"d_val" dialsalias:"d_alt"`
 }
 
+// C20Deep / C20Base: an embedded struct that itself has nested structs (one by pointer, one by value): what the
+// anonymous-flatten mangler hoists into the parent. The types are exported so that the embedded field is.
+type C20Deep struct {
+	V int    `dials:"v_val"`
+	Q string `dials:"q_val"`
+}
+
+type C20Base struct {
+	BX   int      `dials:"bx_val"`
+	Deep *C20Deep `dials:"deep"`
+	Inl  C20Deep  `dials:"inl"`
+}
+
 type c20Cfg struct {
+	C20Base
 	A   int                 `dials:"alpha"`
 	S   string              `dials:"sigma" dialsalias:"sigma_alt"`
 	W   time.Duration       `dials:"wait"`
@@ -70,7 +85,14 @@ type c20Chain struct {
 
 func c20Chains(r *fw.Rand) c10Chain {
 	tagcopy := func(to string) transform.Mangler { return &tagformat.TagCopyingMangler{SrcTag: "dials", NewTag: to} }
-	switch r.Intn(7) {
+	switch r.Intn(10) {
+	case 7:
+		return c10Chain{name: "anon", anonFlat: true, typeChang: true, manglers: []transform.Mangler{transform.AnonymousFlattenMangler{}}}
+	case 8:
+		// the YAML decoder's chain with its flatten option
+		return c10Chain{name: "yaml-anon", anonFlat: true, typeChang: true, manglers: []transform.Mangler{tagcopy("yaml"), transform.AnonymousFlattenMangler{}}}
+	case 9:
+		return c10Chain{name: "ez-yaml-anon", anonFlat: true, typeChang: true, manglers: []transform.Mangler{transform.NewAliasMangler("dials"), &transform.SetSliceMangler{}, tagcopy("yaml"), transform.AnonymousFlattenMangler{}}}
 	case 0:
 		return c10Chain{name: "none"}
 	case 1:
@@ -542,18 +564,22 @@ func c20BlankReuse(w *fw.Worker, i int, r *fw.Rand) {
 func runC20(w *fw.Worker) {
 	// the exhaustive Blank sequences are distributed over the shards
 	seqs := c20BlankSeqs(4)
+	// ... and once more, up to length 3, with every inner source behind a transforming source
+	seqsWrapped := c20BlankSeqs(3)
 	w.Cases(func(i int, r *fw.Rand) {
 		g := i*w.Shards + w.Shard
 		switch {
 		case g < len(seqs):
-			c20Blank(w, i, r, seqs[g])
+			c20Blank(w, i, r, seqs[g], 0)
+		case g < len(seqs)+len(seqsWrapped):
+			c20Blank(w, i, r, seqsWrapped[g-len(seqs)], 100)
 		case i%6 == 5:
-			n := r.Range(5, 8)
+			n := r.Range(3, 8)
 			seq := make([]byte, n)
 			for k := range seq {
 				seq[k] = "swfd"[r.Intn(4)]
 			}
-			c20Blank(w, i, r, string(seq))
+			c20Blank(w, i, r, string(seq), 50)
 		case i%6 == 4:
 			c20Decoder(w, i, r)
 		case i%6 == 3 && i%4 == 1:
@@ -580,6 +606,27 @@ type c20Log struct {
 	errs []string
 }
 
+// c20CountHoisted counts the values (under an anonymous-flatten chain) that leave a nested struct of the embedded
+// struct entirely unset resp. set: both shapes of a hoisted field must occur.
+func c20CountHoisted(w *fw.Worker, ch *c10Chain, l *gen.Layer, leaves []*gen.LeafRef) {
+	if !ch.anonFlat {
+		return
+	}
+	set := map[string]bool{}
+	for lr := range l.Vals {
+		if len(lr.Path) == 3 && lr.Path[0].IsEmbedded() {
+			set[lr.Path[1].Name] = true
+		}
+	}
+	for _, n := range []string{"Deep", "Inl"} {
+		if set[n] {
+			w.Count("anon_flatten_values_with_hoisted_struct_set", 1)
+		} else {
+			w.Count("anon_flatten_values_with_hoisted_struct_unset", 1)
+		}
+	}
+}
+
 func c20Twin(w *fw.Worker, i int, r *fw.Rand) {
 	ch := c20Chains(r)
 	leaves := c20Spec.LeafRefs()
@@ -589,6 +636,7 @@ func c20Twin(w *fw.Worker, i int, r *fw.Rand) {
 	ctx, cancel := context.WithCancel(context.Background())
 	defer cancel()
 	init := c20Layer(r, c, &ch, leaves)
+	c20CountHoisted(w, &ch, init, leaves)
 	innerW := &c20WSrc{c20Src{ch: &ch, cur: init, watching: true}}
 	refW := &c20WSrc{c20Src{cur: init, watching: true}}
 	var inner, ref dials.Source = innerW, refW
@@ -646,6 +694,7 @@ func c20Twin(w *fw.Worker, i int, r *fw.Rand) {
 		n := r.Range(1, 10)
 		for k := 0; k < n; k++ {
 			l := c20Layer(r, c, &ch, leaves)
+			c20CountHoisted(w, &ch, l, leaves)
 			op := r.Intn(10)
 			switch {
 			case op == 0:
@@ -670,7 +719,7 @@ func c20Twin(w *fw.Worker, i int, r *fw.Rand) {
 				}
 				w.Count("inner_errors_propagated", 1)
 				pat.WriteByte('e')
-			case op == 1 && strings.Contains(ch.name, "ez-file") || op == 1 && ch.name == "flag" || op == 1 && ch.name == "env":
+			case op == 1 && strings.HasPrefix(ch.name, "ez-") || op == 1 && ch.name == "flag" || op == 1 && ch.name == "env":
 				// an update whose reverse translation fails: alias and primary both set
 				var both *gen.LeafRef
 				for _, lr := range leaves {
@@ -829,7 +878,10 @@ func c20BlankSeqs(maxLen int) []string {
 }
 
 // c20Blank plays one sequence: s = SetSource(static) w = SetSource(watching) f = SetSource(failing at Value) d = Done.
-func c20Blank(w *fw.Worker, i int, r *fw.Rand, seq string) {
+// With wrapPct > 0 each inner source is, with that probability, put behind sourcewrap.NewTransformingSource with a random
+// mangler list (the fake then produces the translated type): wrapping is transparent, so the model is the same -
+// a wrapped static source is a static one, a wrapped watcher a watcher, a wrapped failure a failure.
+func c20Blank(w *fw.Worker, i int, r *fw.Rand, seq string, wrapPct int) {
 	leaves := c20Spec.LeafRefs()
 	c := &gen.Counter{}
 	native := &c10Chain{name: "none"}
@@ -849,6 +901,16 @@ func c20Blank(w *fw.Worker, i int, r *fw.Rand, seq string) {
 		w.Violation(i, "config-error-with-blank", err.Error(), desc)
 		return
 	}
+	wrappedSteps := make([]string, len(seq))
+	desc["wrapped_with"] = wrappedSteps
+	anyWrapped := false
+	// key: failures of histories with a wrapped inner source are a class of their own
+	key := func(k string) string {
+		if anyWrapped {
+			return k + ":inner-behind-transforming-source"
+		}
+		return k
+	}
 	done := dials.VerifMonitorDone(d)
 	// model
 	var modelInner *gen.Layer // latest successfully installed inner's layer
@@ -862,7 +924,16 @@ func c20Blank(w *fw.Worker, i int, r *fw.Rand, seq string) {
 		return gen.ReferenceStack(reflect.ValueOf(c20Cfg{A: -1, S: "dflt"}), ls)
 	}
 	for k, op := range seq {
-		l := c20Layer(r, c, native, leaves)
+		stepCh := native
+		var wrapCh *c10Chain
+		if op != 'd' && r.Chance(wrapPct) {
+			cc := c20Chains(r)
+			stepCh, wrapCh = &cc, &cc
+			wrappedSteps[k] = cc.name
+			anyWrapped = true
+			w.Count("blank_inner_sources_wrapped", 1)
+		}
+		l := c20Layer(r, c, stepCh, leaves)
 		// each call gets its own short-lived context that ends right after the call
 		// (bounded: once the monitor is gone a SetSource legitimately blocks until its context ends)
 		cctx, ccancel := context.WithTimeout(ctx, 3*time.Second)
@@ -874,17 +945,20 @@ func c20Blank(w *fw.Worker, i int, r *fw.Rand, seq string) {
 		switch op {
 		case 's', 'w', 'f':
 			var src dials.Source
-			st := &c20Src{cur: l}
+			st := &c20Src{cur: l, ch: wrapCh}
 			var ws *c20WSrc
 			switch op {
 			case 's':
 				src = st
 			case 'w':
-				ws = &c20WSrc{c20Src{cur: l, watching: true}}
+				ws = &c20WSrc{c20Src{cur: l, watching: true, ch: wrapCh}}
 				src = ws
 			case 'f':
 				st.valueErr = errInner
 				src = st
+			}
+			if wrapCh != nil {
+				src = sourcewrap.NewTransformingSource(src, wrapCh.manglers...)
 			}
 			err := blank.SetSource(cctx, src)
 			ccancel()
@@ -892,19 +966,19 @@ func c20Blank(w *fw.Worker, i int, r *fw.Rand, seq string) {
 			case doneForwarded && !withOther:
 				// the monitor is gone: the call must fail (C08 judges how); the Blank's own state is not judged further
 				if err == nil {
-					w.Violation(i, "blank-setsource-succeeded-after-done", fmt.Sprintf("step %d (%c)", k, op), desc)
+					w.Violation(i, key("blank-setsource-succeeded-after-done"), fmt.Sprintf("step %d (%c)", k, op), desc)
 					return
 				}
 				w.Count("blank_sequences_run", 1)
 				return
 			case watcher != nil:
 				if err == nil {
-					w.Violation(i, "blank-replaced-a-watching-inner", fmt.Sprintf("step %d (%c): SetSource succeeded although a watching inner source is installed", k, op), desc)
+					w.Violation(i, key("blank-replaced-a-watching-inner"), fmt.Sprintf("step %d (%c): SetSource succeeded although a watching inner source is installed", k, op), desc)
 					return
 				}
 			case op == 'f':
 				if err == nil || !errors.Is(err, errInner) {
-					w.Violation(i, "blank-setsource-error-not-propagated", fmt.Sprintf("step %d: %v", k, err), desc)
+					w.Violation(i, key("blank-setsource-error-not-propagated"), fmt.Sprintf("step %d: %v", k, err), desc)
 					return
 				}
 				w.Count("inner_errors_propagated", 1)
@@ -913,7 +987,7 @@ func c20Blank(w *fw.Worker, i int, r *fw.Rand, seq string) {
 					// Done was forwarded while another watcher keeps the monitor alive: updates are still applied by dials
 				}
 				if err != nil {
-					w.Violation(i, "blank-setsource-failed", fmt.Sprintf("step %d (%c): %v", k, op, err), desc)
+					w.Violation(i, key("blank-setsource-failed"), fmt.Sprintf("step %d (%c): %v", k, op, err), desc)
 					return
 				}
 				modelInner = l
@@ -934,13 +1008,13 @@ func c20Blank(w *fw.Worker, i int, r *fw.Rand, seq string) {
 				select {
 				case <-done:
 				case <-time.After(10 * time.Second):
-					w.Violation(i, "blank-done-not-forwarded", fmt.Sprintf("step %d: Done on a Blank without a watching inner did not let the monitor exit", k), desc)
+					w.Violation(i, key("blank-done-not-forwarded"), fmt.Sprintf("step %d: Done on a Blank without a watching inner did not let the monitor exit", k), desc)
 					return
 				}
 			} else {
 				select {
 				case <-done:
-					w.Violation(i, "blank-done-forwarded-with-watching-inner", fmt.Sprintf("step %d (%c): the monitor exited although a watching inner source owns the slot (or Done was never called)", k, op), desc)
+					w.Violation(i, key("blank-done-forwarded-with-watching-inner"), fmt.Sprintf("step %d (%c): the monitor exited although a watching inner source owns the slot (or Done was never called)", k, op), desc)
 					return
 				default:
 				}
@@ -949,24 +1023,28 @@ func c20Blank(w *fw.Worker, i int, r *fw.Rand, seq string) {
 		// the view follows the model
 		w.Count("twin_views_compared", 1)
 		if df := gen.Diff(expectView(), reflect.ValueOf(*d.View())); df != "" {
-			w.Violation(i, "blank-view-differs-from-model", fmt.Sprintf("after step %d (%c): %s", k, op, df), desc)
+			w.Violation(i, key("blank-view-differs-from-model"), fmt.Sprintf("after step %d (%c): %s", k, op, df), desc)
 			return
 		}
 		// Blank.Value delegates to the most recently set non-failing inner
 		if modelInner != nil && !(doneForwarded && !withOther) {
 			v, verr := blank.Value(ctx, dials.NewType(innerTypeOf(d)))
 			if verr != nil {
-				w.Violation(i, "blank-value-does-not-delegate", verr.Error(), desc)
+				w.Violation(i, key("blank-value-does-not-delegate"), verr.Error(), desc)
 				return
 			}
 			if df := gen.Diff(modelInner.Materialize(innerTypeOf(d)), v); df != "" {
-				w.Violation(i, "blank-value-delegates-to-wrong-inner", df, desc)
+				w.Violation(i, key("blank-value-delegates-to-wrong-inner"), df, desc)
 				return
 			}
 		}
 		// an installed watching inner's later updates are applied, whatever context SetSource was called with
 		if watcher != nil && !(doneForwarded && !withOther) {
-			ul := c20Layer(r, c, native, leaves)
+			wch := native
+			if watcher.ch != nil {
+				wch = watcher.ch
+			}
+			ul := c20Layer(r, c, wch, leaves)
 			repDone := make(chan error, 1)
 			go func() { repDone <- watcher.report(ul, true, nil) }()
 			var err error
@@ -976,7 +1054,7 @@ func c20Blank(w *fw.Worker, i int, r *fw.Rand, seq string) {
 				// the report is stuck: either the monitor exited (Done was forwarded although a watcher owns the slot) or unknown
 				select {
 				case <-done:
-					w.Violation(i, "blank-done-forwarded-with-watching-inner", fmt.Sprintf("after step %d (%c): the monitor exited although a watching inner source owns the slot; its update can never be delivered", k, op), desc)
+					w.Violation(i, key("blank-done-forwarded-with-watching-inner"), fmt.Sprintf("after step %d (%c): the monitor exited although a watching inner source owns the slot; its update can never be delivered", k, op), desc)
 				default:
 					w.Inconclusive(i, "watching inner's update did not return; monitor still running")
 				}
@@ -984,19 +1062,22 @@ func c20Blank(w *fw.Worker, i int, r *fw.Rand, seq string) {
 				return
 			}
 			if err != nil {
-				w.Violation(i, "watching-inner-update-lost", fmt.Sprintf("after step %d: update from the watching inner set through the Blank failed: %v", k, err), desc)
+				w.Violation(i, key("watching-inner-update-lost"), fmt.Sprintf("after step %d: update from the watching inner set through the Blank failed: %v", k, err), desc)
 				return
 			}
 			modelInner = ul
 			w.Count("wrapped_updates_applied", 1)
 			if df := gen.Diff(expectView(), reflect.ValueOf(*d.View())); df != "" {
-				w.Violation(i, "watching-inner-update-not-applied", df, desc)
+				w.Violation(i, key("watching-inner-update-not-applied"), df, desc)
 				return
 			}
 		}
 	}
 	w.Count("blank_sequences_run", 1)
-	w.Distinct(fmt.Sprintf("blank|%s|%v", seq, withOther))
+	if anyWrapped {
+		w.Count("blank_sequences_with_wrapped_inner_run", 1)
+	}
+	w.Distinct(fmt.Sprintf("blank|%s|%v|%s", seq, withOther, strings.Join(wrappedSteps, ",")))
 	if i%53 == 0 {
 		w.Sample(desc)
 	}
